@@ -63,13 +63,28 @@ def takagi(matrix, connector, atol=1e-12):
     for indices in singular_value_multiplicity_indices:
         Z = V[:, indices].transpose() @ W[:, indices]
 
-        D, Q = connector.schur(Z)
+        # NOTE: For a real `Z`, SciPy would return the real Schur form, whose 2x2
+        # diagonal blocks are lost by `np.diag(D)`; hence the cast to complex.
+        D, Q = connector.schur(Z + 0j)
         diags = np.diag(D)
 
         # NOTE: It is not mentioned in the cited paper, but it does matter which square
-        # root you take here. If the square root is not the "canonical" one, the
-        # decomposition might not yield the original matrix.
-        angles_mod = np.mod(np.angle(diags), 2 * np.pi)  # phases in [0, 2\pi)
+        # root you take here: equal eigenvalues of `Z` need equal square roots, otherwise
+        # the square root of the (symmetric) `Z` is not symmetric, and the decomposition
+        # does not yield the original matrix. Therefore, the branch cut of the square
+        # root is put in the middle of the largest gap between the phases, so that
+        # no cluster of (numerically) equal eigenvalues is split by it.
+        angles = np.angle(diags)
+        sorted_angles = np.sort(angles)
+        gaps = np.concatenate(
+            [
+                sorted_angles[1:] - sorted_angles[:-1],
+                sorted_angles[:1] - sorted_angles[-1:] + 2 * np.pi,
+            ]
+        )
+        largest_gap_index = np.argmax(gaps)
+        branch_cut = sorted_angles[largest_gap_index] + gaps[largest_gap_index] / 2
+        angles_mod = np.mod(angles - branch_cut, 2 * np.pi) + branch_cut
         sqrt_diags = np.sqrt(np.abs(diags)) * np.exp(1j * angles_mod / 2)
 
         sqrt_Z = Q @ np.diag(sqrt_diags) @ np.conj(Q).T
